@@ -335,6 +335,82 @@ Theorem from_parts_roundtrip : forall d : list N,
   option_map to_dense (from_parts (N.of_nat (length d)) (N_seq_from 0 (length d)) d) = Some (map norm_zero d).
 Proof. intros d. rewrite from_parts_dense. cbn [option_map]. rewrite sparse_roundtrip. reflexivity. Qed.
 
+(* ---- SparseVector::set on a well-formed (strictly position-sorted) vector ---- *)
+Fixpoint keys_above (lo : N) (l : list (N * N)) : Prop :=
+  match l with [] => True | (p, _) :: r => lo <= p /\ keys_above (p + 1) r end.
+Definition sv_wf (s : N * list (N * N)) : Prop := keys_above 0 (snd s).
+Definition get_pairs (l : list (N * N)) (j : N) : N :=
+  match find (fun pv => N.eqb (fst pv) j) l with Some pv => snd pv | None => 0 end.
+
+Lemma keys_above_weaken : forall l lo lo', lo' <= lo -> keys_above lo l -> keys_above lo' l.
+Proof. destruct l as [|[p x] r]; cbn; intros lo lo' L H; [exact I|]. destruct H as [H1 H2]. split; [lia|exact H2]. Qed.
+
+Lemma get_below : forall l lo j, keys_above lo l -> j < lo -> get_pairs l j = 0.
+Proof.
+  induction l as [|[p x] r IH]; intros lo j H L; [reflexivity|]. cbn in H. destruct H as [H1 H2].
+  unfold get_pairs. cbn [find fst]. destruct (N.eqb_spec p j) as [->|Ne]; [lia|].
+  apply (IH (p + 1) j H2). lia.
+Qed.
+
+Lemma from_dense_at_above : forall d i, keys_above i (from_dense_at i d).
+Proof.
+  induction d as [|v r IH]; intros i; cbn [from_dense_at]; [exact I|].
+  destruct (f32_is_zero v).
+  - apply (keys_above_weaken _ (i + 1)); [lia|apply IH].
+  - cbn. split; [lia|apply IH].
+Qed.
+
+Lemma sv_set_pairs_spec : forall l lo i v, keys_above lo l -> lo <= i ->
+  keys_above lo (sv_set_pairs l i v) /\
+  forall j, get_pairs (sv_set_pairs l i v) j = if N.eqb j i then norm_zero v else get_pairs l j.
+Proof.
+  induction l as [|[p x] r IH]; intros lo i v H L.
+  - cbn [sv_set_pairs]. unfold norm_zero. destruct (f32_is_zero v) eqn:Z.
+    + split; [exact I|]. intros j. destruct (N.eqb j i); reflexivity.
+    + split; [cbn; split; [exact L|exact I]|]. intros j. unfold get_pairs. cbn [find fst snd].
+      rewrite (N.eqb_sym j i). destruct (N.eqb i j); reflexivity.
+  - cbn in H. destruct H as [H1 H2]. cbn [sv_set_pairs]. unfold norm_zero.
+    destruct (N.ltb_spec i p) as [Lt|Ge].
+    + destruct (f32_is_zero v) eqn:Z.
+      * split; [cbn; split; assumption|]. intros j. destruct (N.eqb_spec j i) as [->|]; [|reflexivity].
+        apply (get_below ((p, x) :: r) p i); [cbn; split; [lia|exact H2]|exact Lt].
+      * split; [cbn; split; [exact L|split; [lia|exact H2]]|].
+        intros j. unfold get_pairs. cbn [find fst snd]. rewrite (N.eqb_sym j i). destruct (N.eqb i j); reflexivity.
+    + destruct (N.eqb_spec i p) as [->|Ne].
+      * destruct (f32_is_zero v) eqn:Z.
+        -- split; [apply (keys_above_weaken _ (p + 1)); [lia|exact H2]|].
+           intros j. destruct (N.eqb_spec j p) as [->|Nj].
+           ++ apply (get_below r (p + 1) p H2). lia.
+           ++ unfold get_pairs. cbn [find fst]. destruct (N.eqb_spec p j); [congruence|reflexivity].
+        -- split; [cbn; split; [exact H1|exact H2]|].
+           intros j. unfold get_pairs. cbn [find fst snd]. destruct (N.eqb_spec p j) as [<-|Nj].
+           ++ rewrite N.eqb_refl. reflexivity.
+           ++ destruct (N.eqb_spec j p); [congruence|reflexivity].
+      * assert (Lp : p + 1 <= i) by lia.
+        destruct (IH (p + 1) i v H2 Lp) as [K G]. fold (norm_zero v) in G.
+        split; [cbn; split; [exact H1|exact K]|].
+        intros j. unfold get_pairs in *. cbn [find fst snd]. destruct (N.eqb_spec p j) as [<-|Nj].
+        -- destruct (N.eqb_spec p i); [congruence|reflexivity].
+        -- apply G.
+Qed.
+
+(* set(i, v) on a well-formed sparse vector: index >= dimension is refused; otherwise the result is well formed
+   again and reads back, coordinate by coordinate, as the old vector with coordinate i overwritten by v
+   (-0.0 / +0.0 meaning "absent") *)
+Theorem sv_set_spec : forall s i v,
+  sv_wf s ->
+  (fst s <= i -> sv_set s i v = None) /\
+  (i < fst s -> exists s', sv_set s i v = Some s' /\ fst s' = fst s /\ sv_wf s' /\
+                forall j, sv_get s' j = if N.eqb j i then norm_zero v else sv_get s j).
+Proof.
+  intros s i v W. unfold sv_set. split; intros L.
+  - destruct (N.leb_spec (fst s) i); [reflexivity|lia].
+  - destruct (N.leb_spec (fst s) i); [lia|]. eexists. split; [reflexivity|]. cbn [fst snd].
+    destruct (sv_set_pairs_spec (snd s) 0 i v W (N.le_0_l i)) as [K G]. split; [reflexivity|]. split; [exact K|exact G].
+Qed.
+Theorem from_dense_wf : forall d, sv_wf (from_dense d).
+Proof. intros d. unfold sv_wf, from_dense. cbn [snd]. apply from_dense_at_above. Qed.
+
 (* the forged-input decoder is total and length-preserving: whatever the positions, the result has exactly
    `dimension` entries (no out-of-bounds write, no growth) *)
 Lemma set_at_length : forall l i v, length (set_at l i v) = length l.
